@@ -1,2 +1,27 @@
-// VERIF-REPLAY {"property": "C20", "harness": "c20_aligned_buffer_capacity_is_allocated", "file": "src/utils/allocator.rs", "fqn": "utils::allocator::verif_kani::c20_aligned_buffer_capacity_is_allocated", "failed_checks": [{"d": "dereference failure: pointer invalid", "loc": {"file": "/home/runner/.rustup/toolchains/nightly-2026-08-21-x86_64-unknown-linux-gnu/lib/rustlib/src/rust/library/core/src/slice/raw.rs", "line": "194", "column": "9"}, "s": "Failure"}, {"d": "dereference failure: pointer outside object bounds", "loc": {"file": "/verif/kani/allocator_k.rs", "line": "30", "column": "9"}, "s": "Failure"}]}
-// Kani produced no concrete playback test
+// VERIF-REPLAY {"property": "C20", "harness": "c20_aligned_buffer_capacity_is_allocated", "file": "src/utils/allocator.rs", "fqn": "utils::allocator::verif_kani::c20_aligned_buffer_capacity_is_allocated", "failed_checks": [{"d": "assertion failed: usable_size(b.as_ptr()) >= cap", "loc": {"file": "/verif/kani/allocator_k.rs", "line": "37", "column": "9"}, "s": "Failure"}]}
+// Re-run with: ./check replay /verif/replays/C20-c20_aligned_buffer_capacity_is_allocated.rs
+// (appends this test to a scratch copy of kani/allocator_k.rs injected into a copy of /repo and runs
+//  `cargo kani playback` in dev and release profiles; Kani stubs are NOT applied natively.)
+/// Test generated for harness `utils::allocator::verif_kani::c20_aligned_buffer_capacity_is_allocated` 
+///
+/// Check for `assertion`: "assertion failed: usable_size(b.as_ptr()) >= cap"
+///
+/// # Warning
+///
+/// Concrete playback tests combined with stubs or contracts is highly
+/// experimental, and subject to change.
+///
+/// The original harness has stubs which are not applied to this test.
+/// This may cause a mismatch of non-deterministic values if the stub
+/// creates any non-deterministic value.
+/// The execution path may also differ, which can be used to refine the stub
+/// logic.
+
+#[test]
+fn kani_concrete_playback_c20_aligned_buffer_capacity_is_allocated_13206164271193169290() {
+    let concrete_vals: Vec<Vec<u8>> = vec![
+        // 4097ul
+        vec![1, 16, 0, 0, 0, 0, 0, 0],
+    ];
+    kani::concrete_playback_run(concrete_vals, c20_aligned_buffer_capacity_is_allocated);
+}
